@@ -123,6 +123,13 @@ func c20Slim(out *vOut, gen string, a []string) {
 // integer environment values: absent, valid, and invalid (negative, overflow, garbage, spaces, float)
 var c20IntEnv = []string{"-", "5", "600", "4096", "0", "-3", "abc", "99999999999999999999", "", " 5", "1.5", "+7", "007", "-1", "513", "2048", "5 ", "0x10", "1_000", "9223372036854775808", "-0"}
 
+// duration variables additionally get parsable values around the int64-nanosecond overflow of
+// time.Duration(n) * time.Millisecond: MaxInt64 (wraps to -1ms), 9223372036854 (largest exact), 9223372036855 (first
+// overflow, negative), 10000000000000 (negative), 18446744073709 (wraps to a small negative), 18446744073710 (wraps back
+// to a small positive), -9223372036855 (wraps to positive).
+var c20DurEnv = append(append([]string{}, c20IntEnv...), "9223372036854775807", "9223372036855", "10000000000000",
+	"9223372036854", "18446744073709", "18446744073710", "-9223372036855")
+
 func c20EnvTok(s string) string {
 	if s == "-" {
 		return "-"
@@ -172,9 +179,9 @@ func TestVerifC20Sdk(t *testing.T) {
 			}
 		}
 	}
-	optMs := []string{"-", "0", "7", "60000", "-2"}
+	optMs := []string{"-", "0", "7", "60000", "-2", "9223372036855"}
 	for _, od := range optMs {
-		for _, ed := range c20IntEnv {
+		for _, ed := range c20DurEnv {
 			c20Bsp(out, "exh-delay", []string{"-", "-", od, "-", "-", "-", c20EnvTok(ed), "-"})
 			c20Bsp(out, "exh-timeout", []string{"-", "-", "-", od, "-", "-", "-", c20EnvTok(ed)})
 		}
@@ -220,6 +227,8 @@ func TestVerifC20Sdk(t *testing.T) {
 			for j := 4; j < 8; j++ {
 				if r.Intn(3) == 0 {
 					a[j] = "-"
+				} else if j >= 6 { // OTEL_BSP_SCHEDULE_DELAY, OTEL_BSP_EXPORT_TIMEOUT
+					a[j] = c20EnvTok(vPick(r, c20DurEnv))
 				} else {
 					a[j] = c20EnvTok(vPick(r, c20IntEnv))
 				}
